@@ -117,9 +117,31 @@ def render_function(sig: dict) -> tuple[str, int]:
     return f"L = lambda {ps}: 0\n", 0
 
 
-def model_line(sig: dict, special: bool) -> str:
+def model_line(sig: dict, special: bool, native: bool) -> str:
     return json.dumps(["args", sig["posonly"], sig["args"], sig["vararg"], sig["kwonly"], sig["kwdefaults"],
-                       sig["kwarg"], sig["defaults"], special])
+                       sig["kwarg"], sig["defaults"], special, native])
+
+
+def _fixed(posonly=(), args=(), vararg=None, kwonly=(), kwdefaults=(), kwarg=None, defaults=(), form="def", fname="f",
+           annotate=False):
+    return {"posonly": list(posonly), "args": list(args), "vararg": vararg, "kwonly": list(kwonly),
+            "kwdefaults": list(kwdefaults), "kwarg": kwarg, "defaults": list(defaults), "form": form, "fname": fname,
+            "annotate": annotate, "pos_only_special": True, "malformed": None}
+
+
+FIXED_SIGNATURES = [
+    _fixed(),
+    _fixed(posonly=["a", "b"], args=["c"], vararg="d", kwonly=["e", "f"], kwdefaults=[None, 2001], kwarg="g", defaults=[1000, 1001]),
+    _fixed(args=["a", "b", "c"], defaults=[1000, 1001, 1002], annotate=True),
+    _fixed(kwonly=["__y"], kwdefaults=[None], annotate=True),                 # the witness of not_parsers_agree_posonly
+    _fixed(vararg="__a", kwarg="__k", annotate=True),
+    _fixed(args=["__x", "__y__", "y"], form="method", fname="__init__"),
+    _fixed(args=["self", "other"], form="method", fname="__add__", annotate=True),
+    _fixed(args=["self", "other"], form="method", fname="__add__") | {"pos_only_special": False},
+    _fixed(args=["a", "a"]) | {"malformed": "dup"},
+    _fixed(args=["a"], kwarg="a", form="lambda", fname="<lambda>") | {"malformed": "dup"},
+    _fixed(posonly=["__p"], args=["q"], defaults=[1000], form="lambda", fname="<lambda>"),
+]
 
 
 # ------------------------------------------------------------------------------------------------ real side
@@ -134,7 +156,33 @@ def _options(native: bool, ver=(3, 12), **kw):
     return o
 
 
+import contextlib
+import os
+
+
+@contextlib.contextmanager
+def quiet_stderr():
+    """fd-level: a Rust panic in the native front end writes its message to fd 2 directly."""
+    import sys
+    sys.stderr.flush()
+    saved = os.dup(2)
+    dn = os.open(os.devnull, os.O_WRONLY)
+    try:
+        os.dup2(dn, 2)
+        yield
+    finally:
+        sys.stderr.flush()
+        os.dup2(saved, 2)
+        os.close(saved)
+        os.close(dn)
+
+
 def parse_file(src: str, native: bool, ver=(3, 12), **kw):
+    with quiet_stderr():
+        return _parse_file(src, native, ver, **kw)
+
+
+def _parse_file(src: str, native: bool, ver=(3, 12), **kw):
     """-> (tree | None, messages, blocked, crash | None) via mypy.parse.parse(eager=True)"""
     from mypy import parse as mparse
     from mypy.errors import Errors
@@ -200,16 +248,22 @@ SP = [" ", "  ", "\t", "", "", "\x0c", "\u00a0", "\u2003", "\u3000", "\x1f"]
 CODE = ["a", "attr-defined", "misc", "arg-type", "x y", "a-b", "", " ", "é", "no_untyped_def", "1", "a.b", "*"]
 
 
-def gen_tag(rng, for_comment: bool) -> str | None:
+FIXED_TAGS = [None, "", " ", "[a]", " [a, b]", "[a,b] # c", "[ a ,, b ] #", "# x", " # type: ignore[x]", "#[a]", "[", "[a", "a]", "]",
+              "[a]]", "[[a]]", "[a][b]", "[a] b", "[a#b]", "[#]", "[]", "[,]", "[a],", "-[a]", "(a)", " x", "[a]\n", "[a]#c\n",
+              "[a]#c\nd", "[a]\n\n", "\n[a]", "[a\n]", "\u00a0[a]\u3000", "[\u2003a\x1f,b]", "_x", ";", "[a] [b] # c"]
+
+
+def gen_tag(rng, for_comment: bool, ascii_only: bool = False) -> str | None:
     """A `# type: ignore` tag: mostly the documented grammar, plus a malformed stream.
     for_comment: the tag must survive CPython's tokenizer as the tail of one physical line (no newline, and
     the first character must not continue the word `ignore`)."""
     r = rng.random()
-    sp = lambda: rng.choice(SP)
+    spaces = [x for x in SP if all(ord(ch) < 128 and ch not in "\x0c\x1f" for ch in x)] if ascii_only else SP
+    sp = lambda: rng.choice(spaces)
     if r < 0.08 and not for_comment:
         return None
     if r < 0.16:
-        return rng.choice(["", " ", "  \t", "\u00a0"])
+        return rng.choice(["", " ", "  \t"] + ([] if ascii_only else ["\u00a0"]))
     if r < 0.24:
         return sp() + "#" + rng.choice(["", " comment", " type: ignore[x]", "[a]"])
     if r < 0.74:
@@ -223,8 +277,10 @@ def gen_tag(rng, for_comment: bool) -> str | None:
                       "\n[a]", "[a] # x\n# y", "-[a]", "[a]\x0c", "(a)", "[a]\u00a0#"])
     if for_comment:
         bad = bad.replace("\n", " ")
-        if bad[:1].isalnum() or (bad[:1] and ord(bad[0]) >= 128):
+        if bad[:1].isalnum() or bad[:1] == "_" or (bad[:1] and ord(bad[0]) >= 128):
             bad = " " + bad
+    if ascii_only:
+        bad = "".join(ch if ord(ch) < 128 and ch not in "\x0c\x1f" else " " for ch in bad)
     return bad
 
 
@@ -249,6 +305,10 @@ CFG_LINES = ["# mypy: disallow-untyped-defs", "# mypy: ", "# mypy:", "#mypy: x",
              "# mypy: strict-optional # c", "if 1:", "    # mypy: deep", "# type: ignore", "# mypy: \\"]
 
 
+FIXED_CFG = ["", "# mypy: a", "# mypy: a\n", "x\n# mypy: b\n# mypy: c", "# mypy:", "# mypy: ", " # mypy: a", "#mypy: a",
+             "# mypy: a\n\n\n# mypy: b", "\x27\x27\x27\n# mypy: in-string\n\x27\x27\x27\n", "x = 1  # mypy: trailing\n"]
+
+
 def gen_cfg_source(rng) -> str:
     n = rng.randint(0, 7)
     lines = [rng.choice(CFG_LINES) for _ in range(n)]
@@ -268,7 +328,8 @@ def native_cfg(source: str):
     from mypy.nativeparse import native_parse
     o = _options(True)
     try:
-        tree, _, _ = native_parse("main.py", o, source)
+        with quiet_stderr():
+            tree, _, _ = native_parse("main.py", o, source)
     except BaseException as ex:
         if isinstance(ex, KeyboardInterrupt):
             raise
